@@ -30,6 +30,16 @@ def main(argv=None):
     # the deeper (and longer) explorations go first so that the pool stays busy
     jobs = [(c, 2 if quick else 3, 20000 if quick else 200000, "c04") for c in extra] + jobs
     cfgs = extra + cfgs
+    # large-population leg: hundreds of individuals (leaps really move many individuals at once; refused leaps fall back
+    # to single exact events), answers relative to the requested mean, four default steps
+    big_seeds = ["SIR", "BD", "ONE", "CHAIN", "SEIRBD"]
+    bdefs, _ = fam.gather_defs(big_seeds, 0 if quick else 1)
+    big, big_skipped = fam.big_configs(bdefs, pool.pmap)
+    seed_keys = {fam.gen.canon(d) for _s, d in fam.gather_defs(big_seeds, 0)[0]} if not quick else None
+    for c in big:
+        deep = len(c.d["events"]) <= 3 if quick else fam.gen.canon(c.d) in seed_keys
+        jobs.append((c, 2 if deep else 1, 100000, "c04"))
+    cfgs = cfgs + big
     res = pool.pmap(stoch.explore_config, jobs, chunksize=1)
     ex, steps, capped, nout = fam.summarize_l2(run, res, cfgs)
     # explicit-state search through the real step functions
@@ -51,6 +61,11 @@ def main(argv=None):
         "traces_validated_against_impl": ex,
         "L2_steps_checked": steps,
         "configurations": len(cfgs),
+        "large_population_configurations": len(big),
+        "large_population_rule": "populations of 800-1000 individuals %s, modes %s, poisson answers relative to the requested mean "
+                                 "(rounded mean | 0 | mean+3 sigma+1 | 10^7), horizon between the 3rd and 4th time of the all-default "
+                                 "execution, deviation bound 2 (quick: 1 for definitions with more than 3 events; thorough: 1 off the seeds); "
+                                 "%d configurations whose default execution ends before 4 steps left out" % (fam.BIG_X0, fam.BIG_MODES, big_skipped),
         "definitions": len(defs),
         "generator_executions": ngen,
         "deviation_bound_completed": bound,
@@ -59,7 +74,7 @@ def main(argv=None):
     run.assumptions += [
         "reference rates and state-change matrix come from sympy on the definition, never from pygom",
         "draws reach numpy only through numpy.random.exponential/poisson (verified per execution: the global generator state is untouched and no private generator is constructed)",
-        "populations <= 5 (L2) / <= cap (L1); parameters fixed per definition; tau is taken from the implementation (the property does not prescribe the step size) and only required to be positive and consistent across the poisson requests"]
+        "populations <= 5 (L2; 800-1000 in the large-population leg) / <= cap (L1); parameters fixed per definition; tau is taken from the implementation (the property does not prescribe the step size) and only required to be positive and consistent across the poisson requests"]
     rc = run.finish(exhaustive=not capped)
     pool.close()
     return rc
